@@ -8,6 +8,7 @@ import (
 	"io"
 	"math"
 	"reflect"
+	"sort"
 	"time"
 	"unicode/utf8"
 
@@ -299,8 +300,10 @@ func FromGoType(obj interface{}) Object {
 		return NewList(items)
 	case map[string]interface{}:
 		m := make(map[string]Object, len(obj))
-		for k, v := range obj {
-			valueObj := FromGoType(v)
+		// (in the order of the keys: which of two unfit values is reported
+		// must not depend on the iteration order of the map)
+		for _, k := range sortedKeysOf(obj) {
+			valueObj := FromGoType(obj[k])
 			if IsError(valueObj) {
 				return valueObj
 			}
@@ -318,10 +321,19 @@ func FromGoType(obj interface{}) Object {
 // AsObjects transform a map containing arbitrary Go types to a map of
 // Risor objects, using the best type converter for each type. If an item
 // in the map is of a type that can't be converted, an error is returned.
+func sortedKeysOf(m map[string]any) []string {
+	keys := make([]string, 0, len(m))
+	for k := range m {
+		keys = append(keys, k)
+	}
+	sort.Strings(keys)
+	return keys
+}
+
 func AsObjects(m map[string]any) (map[string]Object, error) {
 	result := make(map[string]Object, len(m))
-	for k, v := range m {
-		switch v := v.(type) {
+	for _, k := range sortedKeysOf(m) {
+		switch v := m[k].(type) {
 		case nil:
 			result[k] = Nil
 		case Object:
@@ -1194,7 +1206,9 @@ func (c *MapConverter) To(obj Object) (interface{}, error) {
 func (c *MapConverter) From(obj interface{}) (Object, error) {
 	m := reflect.ValueOf(obj)
 	o := make(map[string]Object, m.Len())
-	for _, key := range m.MapKeys() {
+	keys := m.MapKeys()
+	sort.Slice(keys, func(i, j int) bool { return keys[i].String() < keys[j].String() })
+	for _, key := range keys {
 		v := m.MapIndex(key)
 		conv, err := c.valueConverter.From(v.Interface())
 		if err != nil {
